@@ -39,12 +39,15 @@ TRUSTED = pipecheck.TRUSTED
 ASSUMPTIONS = pipecheck.ASSUMPTIONS + ["histories respect the directory pacing condition (same as C01)"]
 
 
-def one(ctx, res: Result, hist, cfg, batch, init_tree=None):
+def one(ctx, res: Result, hist, cfg, batch, init_tree=None, late_at=()):
     def before_close(run):
         run.drain()
         return pipeprops.oracle_probes(run)
-    run, case, stopped, bad = pipecheck.execute(hist, cfg, init_tree, before_close)
+    run, case, stopped, bad = pipecheck.execute(hist, cfg, init_tree, before_close, late_at=late_at)
     meta = pipecheck.meta_of(hist, cfg)
+    if late_at:
+        meta["late_at"] = list(late_at)
+        res.hist("directory_created_right_before_its_parent_is_watched", len(run.late))
     res.evaluations += 1
     pipecheck.hist_stats(res, hist, run)
     import os
@@ -62,7 +65,8 @@ def one(ctx, res: Result, hist, cfg, batch, init_tree=None):
             observed=b["got"],
             expected="FileCreated(<real path of the probe>)" if b["law"] != "non-recursive-reports-deeper-change" else "no event"))
     res.failures += pipecheck.thread_failures(run, stopped, meta, "C02")
-    batch.append((meta, run, case))
+    if case is not None:
+        batch.append((meta, run, case))
 
 
 CORPUS = [
@@ -97,7 +101,10 @@ def run(ctx) -> Result:
         else:
             hist = pipe.gen_history(rng, n_ops=rng.randint(3, 12), paced=True, burst_prob=rng.choice([0.0, 0.5, 0.9]),
                                     rename_after_arrival=0.3)
-        one(ctx, res, hist, cfg, batch)
+        # every tenth run: another process creates a directory in a directory at the moment it is about to be watched
+        # (1-2 of the first add_watch calls of the run, the initial scan included)
+        late = tuple(sorted({rng.randint(0, 5) for _ in range(rng.randint(1, 2))})) if i % 10 == 7 else ()
+        one(ctx, res, hist, cfg, batch, late_at=late)
     pipecheck.check_model(res, "C02", batch)
     return res
 
@@ -106,7 +113,8 @@ def replay(ctx, obj) -> int:
     case = obj.get("case", obj)
     res = Result()
     batch = []
-    one(ctx, res, case["history"], (case["recursive"], case["full_events"], case["path_kind"]), batch)
+    one(ctx, res, case["history"], (case["recursive"], case["full_events"], case["path_kind"]), batch,
+        late_at=tuple(case.get("late_at", ())))
     pipecheck.check_model(res, "C02", batch)
     for f in res.failures:
         print("FAIL:", f.what, f.observed)
